@@ -398,6 +398,141 @@ M("C10", "R-conversion-rewritten", UCF,
 M("C10", "R-days-in-month-changed", UCF,
   '''        self.days_in_month = 30''', '''        self.days_in_month = 30.4375''', None)
 
+# ---------------------------------------------------------------------------- C11
+FOODF = "src/food_system/food.py"
+M("C11", "revert-F4-units-list", UCF,
+  '''        ] = self.get_units_from_list_to_element()
+
+        self.units = [self.kcals_units, self.fat_units, self.protein_units]
+''', '''        ] = self.get_units_from_list_to_element()
+''', "C11.TS")
+M("C11", "revert-F5-mul-labels", FOODF,
+  '''                    self.protein * other.protein,
+                    kcals_units,
+                    fat_units,
+                    protein_units,
+                )''', '''                    self.protein * other.protein,
+                    self.kcals_units,
+                    self.fat_units,
+                    self.protein_units,
+                )''', "C11.MUL")
+M("C11", "revert-F6-any-greater", FOODF,
+  '''                    (np.array(self.fat - other.fat) > 0).any()
+                    and self.conversions.include_fat''', '''                    (np.array(self.fat - other.fat) > 0).any()
+                    and self.conversions.exclude_fat''', "C11.PRED")
+M("C11", "revert-F6-threshold", FOODF,
+  '''            self.kcals >= -threshold
+            and (self.fat >= -threshold or self.conversions.exclude_fat)''', '''            self.kcals >= 0
+            and (self.fat >= -threshold or self.conversions.exclude_fat)''', "C11.PRED")
+M("C11", "revert-F7-guard", FOODF,
+  '''        # the units must be the same for the comparison to mean anything
+        assert self.units == other.units
+
+''', '', "C11.GUARD")
+M("C11", "shift-in-place", FOODF,
+  '''        kcals_shifted = np.roll(self.kcals, months)''', '''        kcals_shifted = self.kcals''', "C11.PURE")
+M("C11", "div-label-not-ratio", FOODF,
+  '''                self.protein / other.protein,
+                "ratio",
+                "ratio",
+                "ratio",''', '''                self.protein / other.protein,
+                self.kcals_units,
+                self.fat_units,
+                self.protein_units,''', "C11.LBL")
+M("C11", "get-month-not-relabelled", FOODF,
+  '''        food_at_month.set_units_from_list_to_element()
+''', '', "C11.LBL")
+M("C11", "neg-takes-other-lane-label", FOODF,
+  '''            protein=-self.protein,
+            kcals_units=self.kcals_units,
+            fat_units=self.fat_units,''', '''            protein=-self.protein,
+            kcals_units=self.kcals_units,
+            fat_units=self.kcals_units,''', "C11.LANE")
+M("C11", "running-total-mutates-self", FOODF,
+  '''        kcals_copy = copy.deepcopy(self.kcals)''', '''        kcals_copy = self.kcals''', "C11.PURE")
+M("C11", "eq-list-arm-uses-any", FOODF,
+  '''                (self.kcals == other.kcals).all()
+                and (self.fat == other.fat).all()''', '''                (self.kcals == other.kcals).all()
+                or (self.fat == other.fat).all()''', "C11.PRED")
+M("C11", "mul-ratio-side-swapped", FOODF,
+  '''                this_is_the_ratio = self.is_a_ratio()
+                other_is_the_ratio = other.is_a_ratio()
+
+                assert (
+                    this_is_the_ratio or other_is_the_ratio
+                ), "list multiplication only works if one or both is a ratios right now"
+
+                if this_is_the_ratio:
+                    kcals_units = other.kcals_units
+                    fat_units = other.fat_units
+                    protein_units = other.protein_units
+
+                if other_is_the_ratio:
+                    kcals_units = self.kcals_units
+                    fat_units = self.fat_units
+                    protein_units = self.protein_units
+
+                return Food(
+                    self.kcals * other.kcals,''', '''                this_is_the_ratio = self.is_a_ratio()
+                other_is_the_ratio = other.is_a_ratio()
+
+                assert (
+                    this_is_the_ratio or other_is_the_ratio
+                ), "list multiplication only works if one or both is a ratios right now"
+
+                if this_is_the_ratio:
+                    kcals_units = self.kcals_units
+                    fat_units = self.fat_units
+                    protein_units = self.protein_units
+
+                if other_is_the_ratio:
+                    kcals_units = other.kcals_units
+                    fat_units = other.fat_units
+                    protein_units = other.protein_units
+
+                return Food(
+                    self.kcals * other.kcals,''', "C11.MUL")
+M("C11", "R-predicate-rewritten", FOODF,
+  '''        return (
+            self.kcals > 0
+            and (self.fat > 0 or self.conversions.exclude_fat)
+            and (self.protein > 0 or self.conversions.exclude_protein)
+        )''', '''        fat_ok = self.fat > 0 or not self.conversions.include_fat
+        protein_ok = not self.conversions.include_protein or self.protein > 0
+        return protein_ok and fat_ok and self.kcals > 0''', None)
+
+M("C11", "sub-lanes-swapped", FOODF,
+  '''        return Food(
+            kcals, fat, protein, self.kcals_units, self.fat_units, self.protein_units
+        )
+
+    @staticmethod
+    def get_remaining_food_needed_and_amount_used(''', '''        return Food(
+            kcals, protein, fat, self.kcals_units, self.fat_units, self.protein_units
+        )
+
+    @staticmethod
+    def get_remaining_food_needed_and_amount_used(''', "C11.LANE")
+M("C11", "add-assert-dropped", FOODF,
+  '''        assert (
+            self.units == other.units
+        ), "ERROR: adding foods with different units!"  # Check that the units of the two foods are the same
+''', '', "C11.GUARD")
+M("C11", "R-sub-locals-renamed", FOODF,
+  '''        kcals = self.kcals - other.kcals
+        fat = self.fat - other.fat
+        protein = self.protein - other.protein
+
+        # Create a new Food object with the subtracted nutrient quantities
+        return Food(
+            kcals, fat, protein, self.kcals_units, self.fat_units, self.protein_units
+        )''', '''        k = self.kcals - other.kcals
+        f = self.fat - other.fat
+        p = self.protein - other.protein
+
+        # Create a new Food object with the subtracted nutrient quantities
+        return Food(k, f, p, self.kcals_units, self.fat_units, self.protein_units)''', None)
+
 # ---------------------------------------------------------------------------- runner
 
 COPY = ["src", "scenarios", "scripts", "plot_manuscript_figures.py", "tests"]
